@@ -34,6 +34,7 @@ public class MasaReal {
 
   static final class Num {
     final BigDecimal v; final double m; final boolean finite;
+    boolean exact = false;   // an input as logged (a floating-point number both sides hold exactly), not a computed value
     Num(BigDecimal v, double m) { this.v = v; this.m = m; this.finite = true; }
     Num() { this.v = BigDecimal.ZERO; this.m = 0; this.finite = false; }
   }
@@ -44,16 +45,21 @@ public class MasaReal {
     Value[] e = t.elems;
     int s = ((IntValue) e[0]).val;
     if (s == 9) return new Num();
+    boolean exact = s >= 2;          // signs 2, 3, 4 = exact input with sign -1, 0, 1
+    if (exact) s -= 3;
     int ex = ((IntValue) e[1]).val;
     BigInteger M = BigInteger.ZERO;
     for (int i = 2; i < 7; i++) M = M.multiply(B9).add(BigInteger.valueOf(((IntValue) e[i]).val));
     if (s < 0) M = M.negate();
     long bits = (((long) ((IntValue) e[7]).val) << 32) | (((long) ((IntValue) e[8]).val) & 0xffffffffL);
-    return new Num(new BigDecimal(M, -ex), Double.longBitsToDouble(bits));
+    Num r = new Num(new BigDecimal(M, -ex), Double.longBitsToDouble(bits));
+    r.exact = exact;
+    return r;
   }
 
   static Value enc(BigDecimal v, double m) {
     v = v.round(MC);
+    if (v.signum() != 0 && Math.abs((long) v.precision() - v.scale()) > 100000) return nonfinite();
     Value[] e = new Value[9];
     int s = v.signum();
     BigInteger M = v.unscaledValue().abs();
@@ -77,6 +83,15 @@ public class MasaReal {
     return new TupleValue(e);
   }
   static Value leaf(BigDecimal v) { return enc(v, Math.abs(v.doubleValue())); }
+  // an exact input: the sign field carries the flag
+  static Value exactLeaf(BigDecimal v) {
+    // (held to 45 digits: the difference of two floating-point numbers cancels at most 2^64, so the
+    //  representation error stays below 1e-25 of the result, far under one unit roundoff)
+    TupleValue t = (TupleValue) enc(v, Math.abs(v.doubleValue()));
+    Value[] e = t.elems.clone();
+    e[0] = IntValue.gen(((IntValue) e[0]).val + 3);
+    return new TupleValue(e);
+  }
   static double ad(BigDecimal v) { return Math.abs(v.doubleValue()); }
 
   // ------------------------------------------------------------------ parsing
@@ -191,7 +206,7 @@ public class MasaReal {
   // ------------------------------------------------------------------ the operators of MasaReal.tla
   public static Value NFromStr(final Value s) {
     BigDecimal v = parse(((StringValue) s).val.toString());
-    return v == null ? nonfinite() : leaf(v);
+    return v == null ? nonfinite() : exactLeaf(v);
   }
   public static Value NFromInt(final Value i) { return leaf(BigDecimal.valueOf(((IntValue) i).val)); }
   public static Value NFromRat(final Value p, final Value q) {
@@ -200,29 +215,42 @@ public class MasaReal {
   public static Value NPi() { return leaf(PI); }
   public static Value NIsFinite(final Value a) { return dec(a).finite ? BoolValue.ValTrue : BoolValue.ValFalse; }
 
-  public static Value NAdd(final Value a, final Value b) { Num x = dec(a), y = dec(b); return enc(x.v.add(y.v, WC), x.m + y.m); }
-  public static Value NSub(final Value a, final Value b) { Num x = dec(a), y = dec(b); return enc(x.v.subtract(y.v, WC), x.m + y.m); }
-  public static Value NMul(final Value a, final Value b) { Num x = dec(a), y = dec(b); return enc(x.v.multiply(y.v, WC), x.m * y.m); }
-  public static Value NNeg(final Value a) { Num x = dec(a); return enc(x.v.negate(), x.m); }
+  // The arithmetic is total: a non-finite operand, or an argument outside the domain of the operation (division
+  // by zero, log or root of a negative number), gives the non-finite number, which propagates; the oracle does
+  // not judge an evaluation whose expected value is non-finite (inadmissible input).
+  static boolean bad(Num... xs) { for (Num x : xs) if (!x.finite) return true; return false; }
+  // sum/difference of two exact inputs: one correctly rounded operation, error u |result| however much cancels
+  public static Value NAdd(final Value a, final Value b) { Num x = dec(a), y = dec(b); if (bad(x, y)) return nonfinite(); BigDecimal r = x.v.add(y.v, WC); return enc(r, x.exact && y.exact ? ad(r) : x.m + y.m); }
+  public static Value NSub(final Value a, final Value b) { Num x = dec(a), y = dec(b); if (bad(x, y)) return nonfinite(); BigDecimal r = x.v.subtract(y.v, WC); return enc(r, x.exact && y.exact ? ad(r) : x.m + y.m); }
+  public static Value NMul(final Value a, final Value b) { Num x = dec(a), y = dec(b); if (bad(x, y)) return nonfinite(); return enc(x.v.multiply(y.v, WC), ad(x.v) * y.m + ad(y.v) * x.m - ad(x.v) * ad(y.v)); }
+  public static Value NNeg(final Value a) { Num x = dec(a); if (bad(x)) return nonfinite(); return enc(x.v.negate(), x.m); }
   public static Value NDiv(final Value a, final Value b) {
     Num x = dec(a), y = dec(b);
-    if (y.v.signum() == 0) throw new RuntimeException("MasaReal: division by zero");
+    if (bad(x, y) || y.v.signum() == 0) return nonfinite();
     double ay = ad(y.v);
-    // a * (1/b): the magnitude of 1/b is |1/b| + |1/b^2| mag(b)  (conditioning of the denominator)
-    return enc(x.v.divide(y.v, WC), x.m * (1.0 / ay + y.m / (ay * ay)));
+    // first order: |a/b| (r_a + r_b - 1) with r = mag/|val|
+    return enc(x.v.divide(y.v, WC), x.m / ay + ad(x.v) * y.m / (ay * ay) - ad(x.v) / ay);
   }
   // leaf functions: value of an elementary function at a.val, magnitude = |value|
-  public static Value NSinL(final Value a) { return leaf(sincosBD(dec(a).v)[0]); }
-  public static Value NCosL(final Value a) { return leaf(sincosBD(dec(a).v)[1]); }
-  public static Value NExpL(final Value a) { return leaf(expBD(dec(a).v)); }
-  public static Value NLogL(final Value a) { return leaf(logBD(dec(a).v)); }
-  public static Value NSqrtL(final Value a) { return leaf(dec(a).v.sqrt(WC)); }
-  public static Value NPowL(final Value a, final Value b) { return leaf(powBD(dec(a).v, dec(b).v)); }
-  public static Value NAbsL(final Value a) { return leaf(dec(a).v.abs()); }
-  public static Value NAbs(final Value a) { Num x = dec(a); return enc(x.v.abs(), x.m); }
+  static boolean huge(Num x) { return x.v.abs().compareTo(new BigDecimal("1e6")) > 0; }
+  public static Value NSinL(final Value a) { Num x = dec(a); if (bad(x) || huge(x)) return nonfinite(); return leaf(sincosBD(x.v)[0]); }
+  public static Value NCosL(final Value a) { Num x = dec(a); if (bad(x) || huge(x)) return nonfinite(); return leaf(sincosBD(x.v)[1]); }
+  public static Value NExpL(final Value a) { Num x = dec(a); if (bad(x) || huge(x)) return nonfinite(); return leaf(expBD(x.v)); }
+  public static Value NLogL(final Value a) { Num x = dec(a); if (bad(x) || x.v.signum() <= 0) return nonfinite(); return leaf(logBD(x.v)); }
+  public static Value NSqrtL(final Value a) { Num x = dec(a); if (bad(x) || x.v.signum() < 0) return nonfinite(); return leaf(x.v.sqrt(WC)); }
+  public static Value NPowL(final Value a, final Value b) {
+    Num x = dec(a), y = dec(b);
+    if (bad(x, y)) return nonfinite();
+    try { BigDecimal r = powBD(x.v, y.v); if (r.abs().compareTo(new BigDecimal("1e3000")) > 0) return nonfinite(); return leaf(r); }
+    catch (RuntimeException e) { return nonfinite(); }
+  }
+  public static Value NAbsL(final Value a) { Num x = dec(a); if (bad(x)) return nonfinite(); return leaf(x.v.abs()); }
+  public static Value NAbs(final Value a) { Num x = dec(a); if (bad(x)) return nonfinite(); return enc(x.v.abs(), x.m); }
   // asin on (-1, 1): Newton iteration on sin from the double approximation
   public static Value NAsinL(final Value a) {
-    BigDecimal y = dec(a).v;
+    Num ya = dec(a);
+    if (bad(ya) || ya.v.abs().compareTo(BigDecimal.ONE) >= 0) return nonfinite();
+    BigDecimal y = ya.v;
     BigDecimal x = new BigDecimal(Math.asin(y.doubleValue()));
     for (int i = 0; i < 6; i++) {
       BigDecimal[] sc = sincosBD(x);
@@ -230,15 +258,16 @@ public class MasaReal {
     }
     return leaf(x);
   }
-  public static Value NLeaf(final Value a) { return leaf(dec(a).v); }
+  public static Value NLeaf(final Value a) { Num x = dec(a); if (bad(x)) return nonfinite(); return leaf(x.v); }
   // value f0 = f(a) with first derivative f1 = f'(a): magnitude |f0| + |f1| mag(a)
   public static Value NFun(final Value f0, final Value f1, final Value a) {
     Num v = dec(f0), d = dec(f1), x = dec(a);
+    if (bad(v, d, x)) return nonfinite();
     return enc(v.v, ad(v.v) + ad(d.v) * x.m);
   }
-  public static Value NLt(final Value a, final Value b) { return dec(a).v.compareTo(dec(b).v) < 0 ? BoolValue.ValTrue : BoolValue.ValFalse; }
-  public static Value NLe(final Value a, final Value b) { return dec(a).v.compareTo(dec(b).v) <= 0 ? BoolValue.ValTrue : BoolValue.ValFalse; }
-  public static Value NSign(final Value a) { return IntValue.gen(dec(a).v.signum()); }
+  public static Value NLt(final Value a, final Value b) { Num x = dec(a), y = dec(b); return !bad(x, y) && x.v.compareTo(y.v) < 0 ? BoolValue.ValTrue : BoolValue.ValFalse; }
+  public static Value NLe(final Value a, final Value b) { Num x = dec(a), y = dec(b); return !bad(x, y) && x.v.compareTo(y.v) <= 0 ? BoolValue.ValTrue : BoolValue.ValFalse; }
+  public static Value NSign(final Value a) { Num x = dec(a); return IntValue.gen(bad(x) ? 0 : x.v.signum()); }
 
   static double unit(String p) { return p.equals("ld") ? Math.pow(2, -64) : Math.pow(2, -53); }
   // |got - exp.val| <= 2^k * u_p * exp.mag
